@@ -62,6 +62,7 @@ inductive Stmt
   | ret (v : Nat)                      -- co_return acc + v
   | throw_ (e : Nat)                   -- throw Err{e}
   | stopIfRequested                    -- co_await stop_if_requested()
+  | resched (k : Nat)                  -- co_await schedule(scheduler k): the task moves to scheduler k (task.cpp)
   deriving Repr
 
 abbrev Prog := List Stmt
@@ -76,18 +77,31 @@ inductive Out
   | localsDead (f : Nat)               -- locals of frame f destroyed
   | cleanup (f a : Nat)                -- cleanup a of frame f ran
   | frameDead (f : Nat)                -- coroutine frame f destroyed
+  | sched (k : Nat)                    -- a schedule() operation of scheduler k was started
   | root (o : Outcome)                 -- the receiver the root task is connected to was completed
   | terminate                          -- std::terminate (error / done inside a cleanup action)
   | fuelOut                            -- the evaluator ran out of fuel (never silence)
   deriving DecidableEq, Repr
 
+/-- what a registered cleanup action does when it runs -/
+inductive CK
+  | sync                               -- completes synchronously
+  | leaf (l : Nat)                     -- awaits leaf l (with an unstoppable token)
+  | back (k : Nat)                     -- library-internal (label 0): schedule() back onto scheduler k, registered
+                                       --   by the first `co_await schedule(…)` of the frame (task.cpp)
+  deriving DecidableEq, Repr
+
+def ckOf (l : Nat) : CK := if l = 0 then .sync else .leaf l
+
 structure Frame where
   id : Nat
   kont : Prog                          -- rest of the body
   acc : Nat
-  cleanups : List (Nat × Nat)          -- registered and not yet run, most recent first: (action, leaf)
+  cleanups : List (Nat × CK)           -- registered and not yet run, most recent first: (action label, kind)
   catching : Bool                      -- the co_await it is suspended in is inside a try block
   live : Bool                          -- body started and not finished: locals alive
+  sched : Nat                          -- the scheduler the task currently runs on (promise.sched_)
+  resched : Bool                       -- it has already rescheduled itself (promise.rescheduled_)
   regd : List Nat                      -- HISTORY: every cleanup ever registered, most recent first
   ran : List Nat                       -- HISTORY: cleanups that ran, in the order they ran
   deriving Repr
@@ -101,6 +115,7 @@ inductive Ctl
   | waitLeaf (i : Nat)                 -- suspended in co_await of body leaf i
   | waitHop                            -- the awaited leaf has completed; its result is queued on the scheduler
   | waitCleanup (i : Nat) (o : Outcome)  -- a cleanup action of the top frame awaits leaf i; exit outcome o
+  | waitBack (o : Outcome)             -- the internal reschedule-back cleanup waits for its scheduler; exit outcome o
   | waitJoin (o : Outcome)             -- the task is finished; the receiver will be completed with o when
                                        --   the in-flight stop request finishes (thunk refCount_)
   | finished                           -- receiver completed
@@ -108,7 +123,9 @@ inductive Ctl
   deriving DecidableEq, Repr
 
 inductive QItem
-  | hop (o : Outcome)                  -- `unstoppable(schedule())` after a non-affine leaf produced o
+  | hop (o : Outcome)                  -- `unstoppable(schedule())` after a non-affine leaf produced o; also the
+                                       --   schedule() of `co_await schedule(k)` itself (o = value 0)
+  | back                               -- the schedule() of a reschedule-back cleanup
   | stopReq                            -- the thunk's deferred stop request
   deriving DecidableEq, Repr
 
@@ -119,6 +136,8 @@ structure St where
   gone : List Frame                    -- HISTORY: destroyed frames, in order of destruction
   queue : List QItem                   -- the manual scheduler's FIFO
   inlineSched : Bool                   -- schedule() completes inside start()
+  stoppable : Bool                     -- the receiver's stop token can request stop (else: no thunk, task.hpp
+                                       --   connect → sa_task; stop events do nothing)
   rootStopped : Bool                   -- stop requested on the receiver's token
   srcStopped : Bool                    -- stop requested on the thunk's source (what tasks/leaves see)
   stopOp : Bool                        -- the deferred stop request is in flight (refCount_ = 2)
@@ -127,22 +146,29 @@ structure St where
   deriving Repr
 
 def rootFrame (p : Prog) : Frame :=
-  { id := 0, kont := p, acc := 0, cleanups := [], catching := false, live := false, regd := [], ran := [] }
+  { id := 0, kont := p, acc := 0, cleanups := [], catching := false, live := false, sched := 0, resched := false,
+    regd := [], ran := [] }
 
 /-- `connect(task, receiver)`: the root frame exists (the coroutine was called), nothing runs -/
-def St.init (p : Prog) (inlineSched : Bool) : St :=
+def St.init (p : Prog) (inlineSched : Bool) (stoppable : Bool := true) : St :=
   { ctl := .idle, frames := [rootFrame p], zombies := [], gone := [], queue := [], inlineSched := inlineSched,
-    rootStopped := false, srcStopped := false, stopOp := false, nextId := 1, outs := [] }
+    stoppable := stoppable, rootStopped := false, srcStopped := false, stopOp := false, nextId := 1, outs := [] }
 
 def emit (s : St) (o : Out) : St := { s with outs := s.outs ++ [o] }
 
 variable (specs : Nat → LeafSpec)
 
+/-- a schedule() operation of scheduler `k` is started; when it completes the top frame is resumed with `o` -/
+def schedHop (s : St) (k : Nat) (o : Outcome) : St :=
+  let s1 := emit s (.sched k)
+  if s.inlineSched then { s1 with ctl := .resume o }
+  else { s1 with ctl := .waitHop, queue := s1.queue ++ [.hop o] }
+
 /-- the awaited body leaf has produced `o`: straight back into the coroutine if the sender is
-    scheduler-affine or the scheduler is inline, else one hop through the scheduler -/
-def leafDone (s : St) (affine : Bool) (o : Outcome) : St :=
-  if affine || s.inlineSched then { s with ctl := .resume o }
-  else { s with ctl := .waitHop, queue := s.queue ++ [.hop o] }
+    scheduler-affine, else `finally(leaf, unstoppable(schedule(sched_)))`: one hop through the task's
+    current scheduler `k` (with_scheduler_affinity.hpp) -/
+def leafDone (s : St) (affine : Bool) (k : Nat) (o : Outcome) : St :=
+  if affine then { s with ctl := .resume o } else schedHop s k o
 
 /-- the root task has finished with `o` (thunk: `complete_and_choose_continuation`) -/
 def rootDone (s : St) (o : Outcome) : St :=
@@ -162,25 +188,37 @@ def execStep (s : St) (fr : Frame) (rest : List Frame) : St :=
     if s.srcStopped then { s with frames := { fr with kont := k } :: rest, ctl := .exit .done }
     else { s with frames := { fr with kont := k } :: rest }
   | .atExit a l :: k =>
-    emit { s with frames := { fr with kont := k, cleanups := (a, l) :: fr.cleanups, regd := a :: fr.regd } :: rest }
+    emit { s with frames := { fr with kont := k, cleanups := (a, ckOf l) :: fr.cleanups, regd := a :: fr.regd } :: rest }
       (.reg fr.id a)
   | .await i t :: k =>
     let s1 := emit { s with frames := { fr with kont := k, catching := t } :: rest } (.leafStart i s.srcStopped)
     match (specs i).kind with
-    | .inline o => leafDone s1 (specs i).affine o
+    | .inline o => leafDone s1 (specs i).affine fr.sched o
     | .pending r =>
       if s.srcStopped then
         -- the stop callback runs inside its registration
         let s2 := emit s1 (.leafStop i)
         match r with
         | none => { s2 with ctl := .waitLeaf i }
-        | some o => leafDone s2 (specs i).affine o
+        | some o => leafDone s2 (specs i).affine fr.sched o
       else { s1 with ctl := .waitLeaf i }
   | .awaitTask p t :: k =>
     let child : Frame :=
-      { id := s.nextId, kont := p, acc := 0, cleanups := [], catching := false, live := true, regd := [], ran := [] }
+      { id := s.nextId, kont := p, acc := 0, cleanups := [], catching := false, live := true, sched := fr.sched,
+        resched := false, regd := [], ran := [] }
     emit { s with frames := child :: { fr with kont := k, catching := t } :: rest, nextId := s.nextId + 1 }
       (.frameStart s.nextId)
+  | .resched n :: k =>
+    -- task.cpp transform_schedule_sender_impl_: the FIRST reschedule registers a cleanup that goes back to the
+    -- scheduler the task was started on; then the task's scheduler is replaced and schedule(n) is awaited
+    if fr.resched then
+      let fr1 : Frame := { fr with kont := k, catching := false, sched := n }
+      schedHop { s with frames := fr1 :: rest } n (.value 0)
+    else
+      let fr1 : Frame :=
+        { fr with kont := k, catching := false, sched := n, resched := true,
+                  cleanups := (0, CK.back fr.sched) :: fr.cleanups, regd := 0 :: fr.regd }
+      schedHop (emit { s with frames := fr1 :: rest } (.reg fr.id 0)) n (.value 0)
 
 def resumeStep (s : St) (fr : Frame) (rest : List Frame) (o : Outcome) : St :=
   match o with
@@ -192,16 +230,21 @@ def resumeStep (s : St) (fr : Frame) (rest : List Frame) (o : Outcome) : St :=
 
 def exitStep (s : St) (fr : Frame) (rest : List Frame) (o : Outcome) : St :=
   match fr.cleanups with
-  | (a, l) :: cs =>
+  | (a, ck) :: cs =>
     let s1 := emit { s with frames := { fr with cleanups := cs, ran := fr.ran ++ [a] } :: rest } (.cleanup fr.id a)
-    if l = 0 then s1
-    else
+    match ck with
+    | .sync => s1
+    | .leaf l =>
       -- the cleanup action awaits leaf l (unstoppable token; no scheduler hop)
       let s2 := emit s1 (.leafStart l false)
       match (specs l).kind with
       | .inline (.value _) => s2
       | .inline _ => { emit s2 .terminate with ctl := .dead }
       | .pending _ => { s2 with ctl := .waitCleanup l o }
+    | .back n =>
+      -- the internal cleanup awaits schedule(n)
+      let s2 := emit s1 (.sched n)
+      if s.inlineSched then s2 else { s2 with ctl := .waitBack o, queue := s2.queue ++ [.back] }
   | [] =>
     match o with
     | .done =>
@@ -240,6 +283,7 @@ mutual
 def Stmt.size : Stmt → Nat
   | .awaitTask p _ => progSize p + 3
   | .atExit _ _ => 2
+  | .resched _ => 2
   | _ => 1
 def progSize : List Stmt → Nat
   | [] => 0
@@ -269,6 +313,12 @@ inductive Ev
   | start | stop | run | complete (i : Nat) (o : Outcome) | destroy
   deriving DecidableEq, Repr
 
+/-- the scheduler of the innermost task -/
+def St.topSched (s : St) : Nat :=
+  match s.frames with
+  | fr :: _ => fr.sched
+  | [] => 0
+
 /-- `request_stop()` on the thunk's source: the leaf the innermost task is suspended on is notified -/
 def deliverStop (s : St) : St :=
   let s1 := { s with srcStopped := true }
@@ -276,7 +326,7 @@ def deliverStop (s : St) : St :=
   | .waitLeaf i =>
     let s2 := emit s1 (.leafStop i)
     match (specs i).kind with
-    | .pending (some o) => leafDone s2 (specs i).affine o
+    | .pending (some o) => leafDone s2 (specs i).affine s.topSched o
     | _ => s2
   | _ => s1
 
@@ -292,12 +342,15 @@ def Ctl.callbackRegistered : Ctl → Bool
   | _ => true
 
 def onStop (s : St) : St :=
-  if s.rootStopped then s
+  if s.rootStopped || !s.stoppable then s
   else
     let s1 := { s with rootStopped := true }
     if !s1.ctl.callbackRegistered then s1
-    else if s1.inlineSched then stopOpDone (settle specs (deliverStop specs { s1 with stopOp := true }))
-    else { s1 with stopOp := true, queue := s1.queue ++ [.stopReq] }
+    else
+      -- the thunk's stop callback starts `unstoppable(on(sched_, just(&src) | then(request_stop)))`
+      let s2 := emit { s1 with stopOp := true } (.sched 0)
+      if s1.inlineSched then stopOpDone (settle specs (deliverStop specs s2))
+      else { s2 with queue := s2.queue ++ [.stopReq] }
 
 def startFrames : List Frame → List Frame
   | fr :: rest => { fr with live := true } :: rest
@@ -307,8 +360,8 @@ def onStart (s : St) : St :=
   -- the thunk registers its stop callback; it runs inside the registration if stop was already requested
   let s1 :=
     if s.rootStopped then
-      (if s.inlineSched then { s with srcStopped := true }
-       else { s with stopOp := true, queue := s.queue ++ [.stopReq] })
+      (if s.inlineSched then { emit s (.sched 0) with srcStopped := true }
+       else { emit s (.sched 0) with stopOp := true, queue := s.queue ++ [.stopReq] })
     else s
   settle specs (emit { s1 with ctl := .exec, frames := startFrames s1.frames } (.frameStart 0))
 
@@ -317,11 +370,15 @@ def onRun (s : St) : St :=
   | [] => s
   | .hop o :: q =>
     if s.ctl = .waitHop then settle specs { s with queue := q, ctl := .resume o } else { s with queue := q }
+  | .back :: q =>
+    match s.ctl with
+    | .waitBack o => settle specs { s with queue := q, ctl := .exit o }
+    | _ => { s with queue := q }
   | .stopReq :: q => stopOpDone (settle specs (deliverStop specs { s with queue := q }))
 
 def onComplete (s : St) (i : Nat) (o : Outcome) : St :=
   match s.ctl with
-  | .waitLeaf j => if i = j then settle specs (leafDone s (specs i).affine o) else s
+  | .waitLeaf j => if i = j then settle specs (leafDone s (specs i).affine s.topSched o) else s
   | .waitCleanup j x =>
     if i = j then
       match o with
@@ -408,6 +465,7 @@ def evalStmt (stopped : Bool) : Stmt → Nat → List Nat → List Nat → SRes
   | .ret v, acc, _, ran => .exit (.value (acc + v)) ran
   | .throw_ e, _, _, ran => .exit (.error e) ran
   | .stopIfRequested, acc, reg, ran => if stopped then .exit .done ran else .next acc reg ran
+  | .resched _, acc, reg, ran => .next acc reg ran   -- outside the spec (`Stmt.inline` is false for it)
 /-- a frame running the statements `k`: its outcome, and all cleanups that have run when its parent
     observes that outcome (its own registered cleanups last, most recent first) -/
 def evalFrame (stopped : Bool) : List Stmt → Nat → List Nat → List Nat → Outcome × List Nat
@@ -439,6 +497,7 @@ def Stmt.inline (inlineSched : Bool) : Stmt → Bool
   | .await i _ => (specs i).kind.isInline && ((specs i).affine || inlineSched)
   | .awaitTask p _ => progInline inlineSched p
   | .atExit _ l => cleanupSync specs l
+  | .resched _ => false
   | _ => true
 def progInline (inlineSched : Bool) : List Stmt → Bool
   | [] => true
